@@ -126,6 +126,13 @@ def check(ctx):
     # before any writer sees them (rule of C01)
     from .C01 import check_reorder
     check_reorder(ctx)
+    # the HDF5 writer sizes its runner-up arrays from the configured
+    # number; the records hold at most that many only if the election is
+    # handed that number unchanged (rule of C03)
+    from .C03 import (check_candidates_forwarded_unchanged,
+                      check_runners_up_as_requested)
+    check_runners_up_as_requested(ctx)
+    check_candidates_forwarded_unchanged(ctx)
     # the writers read the records; they do not edit what the next writer
     # (and the JSON output) will be given (sa/rules/escape.py)
     from ..rules.escape import check_param_records_not_edited
